@@ -196,6 +196,10 @@ theorem Inv.step {n₀ : Nat} {s s' : St} (hi : Inv n₀ s) {l : Label} (h : s.s
       subst h
       obtain ⟨t, ht, h3⟩ := mem_submittedIdx hj
       exact ⟨t, ht, h3, by simp⟩
+  | waitTimed =>
+    simp only [St.step, Option.some.injEq] at h
+    subst h
+    exact hi
   | waitRet j =>
     simp only [St.step] at h
     split at h
